@@ -162,7 +162,7 @@ type convWorld struct {
 	vpn    [2]netip.Addr
 	udp    [2]netip.AddrPort
 	log    []*convPkt
-	now    time.Time
+	clk    [2]time.Time
 	nextPl uint64
 	steps  []string
 	descs  []any
@@ -275,8 +275,7 @@ func (w *convWorld) do(e convEv) {
 		act = 1 - delivered.from
 		w.nodes[act].InjectUDP(w.udp[delivered.from], delivered.data)
 	case "check":
-		w.now = w.now.Add(time.Second)
-		w.nodes[act].Check(uint32(e.arg), w.now)
+		w.nodes[act].Check(uint32(e.arg), w.clk[act])
 	}
 	var post [2]nebula.VerifConvergeDump
 	for i := 0; i < 2; i++ {
@@ -403,9 +402,19 @@ func (w *convWorld) deliverAll(limit int) {
 	}
 }
 
-func (w *convWorld) checkAll(i int) {
-	for _, t := range w.dump(i).Tunnels {
-		w.do(convEv{kind: "check", n: i, arg: uint64(t.Local)})
+// tick advances node i's clock by dt and runs the connection manager's timer loop: every expired local index is
+// checked, in the order the real timer wheel hands them out.
+func (w *convWorld) tick(i int, dt time.Duration) int {
+	w.clk[i] = w.clk[i].Add(dt)
+	w.nodes[i].TickAdvance(w.clk[i])
+	n := 0
+	for {
+		idx, ok := w.nodes[i].TickNext()
+		if !ok {
+			return n
+		}
+		w.do(convEv{kind: "check", n: i, arg: uint64(idx)})
+		n++
 	}
 }
 
@@ -414,21 +423,49 @@ func (w *convWorld) data(i int) {
 	w.do(convEv{kind: "data", n: i, arg: w.nextPl})
 }
 
-// settle: fair, loss-free rounds with traffic both ways
-func (w *convWorld) settle(rounds int) {
+// settle: the network is quiet (what was in flight is gone, nothing is lost any more, no new initiations), both
+// clocks run, applications keep talking both ways. Returns the virtual time until the nodes held one matching
+// tunnel each (-1: never within the horizon).
+func (w *convWorld) settle(horizon time.Duration, traffic bool) time.Duration {
 	for _, p := range w.log {
 		if p.nDel == 0 {
-			p.lost = true // what was in flight before the network went quiet is gone
+			p.lost = true
 		}
 	}
-	for r := 0; r < rounds; r++ {
-		w.data(0)
-		w.data(1)
+	const stepDt = 500 * time.Millisecond
+	var at time.Duration = -1
+	stable := 0
+	for t := time.Duration(0); t < horizon; t += stepDt {
+		for i := 0; i < 2; i++ {
+			if w.dump(i).HasPending && (t/stepDt)%2 == 0 { // the handshake timer runs too: retransmit, then give up
+				w.do(convEv{kind: "hsout", n: i})
+			}
+		}
+		if traffic {
+			w.data(0)
+			w.data(1)
+		}
 		w.deliverAll(200)
-		w.checkAll(0)
-		w.checkAll(1)
+		w.tick(0, stepDt)
+		w.tick(1, stepDt)
 		w.deliverAll(200)
+		if w.converged() {
+			if at < 0 {
+				at = t
+			}
+			stable++
+			if stable > 12 { // stays converged over three more check intervals
+				return at
+			}
+		} else {
+			at = -1
+			stable = 0
+		}
 	}
+	if w.converged() {
+		return at
+	}
+	return -1
 }
 
 func (w *convWorld) converged() bool {
@@ -438,7 +475,9 @@ func (w *convWorld) converged() bool {
 }
 
 func convNewWorld(c *hx.Ctx, ca *convCA, retries int) *convWorld {
-	w := &convWorld{now: time.Now()}
+	w := &convWorld{}
+	w.clk[0] = time.Now()
+	w.clk[1] = w.clk[0]
 	// two distinct overlay addresses in 10.128.0.0/16, either may be the smaller one
 	a := uint32(1 + c.Intn(250))
 	b := uint32(1 + c.Intn(250))
@@ -507,9 +546,8 @@ func (w *convWorld) randomStep(c *hx.Ctx, pLoss float64) {
 		case r < 78:
 			w.data(n)
 			return
-		case r < 100 && len(ds[n].Tunnels) > 0:
-			t := ds[n].Tunnels[c.Intn(len(ds[n].Tunnels))]
-			w.do(convEv{kind: "check", n: n, arg: uint64(t.Local)})
+		case r < 100:
+			w.tick(n, []time.Duration{500 * time.Millisecond, time.Second, 2 * time.Second, 3 * time.Second}[c.Intn(4)])
 			return
 		}
 	}
@@ -527,6 +565,7 @@ func runConvergeNet(c *hx.Ctx) {
 	var failures []map[string]any
 	nConv, nSettled := 0, 0
 	totalSwaps := 0
+	var worstSettle time.Duration
 	for i := 0; i < c.N; i++ {
 		retries := 2 + c.Intn(3)
 		w := convNewWorld(c, ca, retries)
@@ -567,9 +606,9 @@ func runConvergeNet(c *hx.Ctx) {
 			w.do(convEv{kind: "hsout", n: 0})
 			w.do(convEv{kind: "hsout", n: 1})
 			w.deliverAll(50)
-			for r := 0; r < 4; r++ {
-				w.checkAll(0)
-				w.checkAll(1)
+			for r := 0; r < 40; r++ {
+				w.tick(0, 500*time.Millisecond)
+				w.tick(1, 500*time.Millisecond)
 				for _, p := range w.log {
 					if p.nDel == 0 {
 						p.lost = true
@@ -613,10 +652,12 @@ func runConvergeNet(c *hx.Ctx) {
 			settle = c.Chance(0.6)
 		}
 		if settle {
-			w.settle(8)
+			at := w.settle(40*time.Second, true)
 			nSettled++
-			if !w.converged() {
-				w.fails = append(w.fails, "after the fair loss-free rounds the nodes do not hold one matching tunnel each")
+			if at < 0 {
+				w.fails = append(w.fails, "with a quiet loss-free network, running timers and traffic both ways the nodes did not settle on one matching tunnel each within 40 s")
+			} else if at > worstSettle {
+				worstSettle = at
 			}
 			kind += "+settle"
 		}
@@ -642,6 +683,7 @@ func runConvergeNet(c *hx.Ctx) {
 		cw.Meta("failures", failures)
 	}
 	cw.Meta("schedules_settled", nSettled)
+	cw.Meta("worst_settle_virtual_ms", worstSettle.Milliseconds())
 	cw.Meta("schedules_converged", nConv)
 	cw.Meta("swap_decisions", totalSwaps)
 	cw.Close("schedule on two real nodes whose observations (hostmaps, pending entries, emitted packets, tun output after every event) equal the model's and satisfy the clauses; nontrivial = data reached a tun or a primary was swapped")
